@@ -13,6 +13,7 @@ import (
 	"os"
 	"path/filepath"
 	"strings"
+	"time"
 
 	"github.com/cube2222/octosql/config"
 	"github.com/cube2222/octosql/datasources/json"
@@ -53,7 +54,51 @@ func (d *database) ListTables(ctx context.Context) ([]string, error) {
 	return out, nil
 }
 
+// vstream: a scripted changelog with records, a retraction and watermarks (records and watermarks interleaved),
+// so that the whole stream protocol of the plugin boundary is exercised, not just record batches.
+type vstream struct{}
+
+func vstreamTime(sec int) time.Time { return time.Unix(int64(sec), 0).UTC() }
+
+func (v *vstream) PushDownPredicates(newPredicates, pushedDownPredicates []physical.Expression) (rejected, pushedDown []physical.Expression, changed bool) {
+	return newPredicates, pushedDownPredicates, false
+}
+
+func (v *vstream) Materialize(ctx context.Context, env physical.Environment, schema physical.Schema, pushedDownPredicates []physical.Expression) (execution.Node, error) {
+	return v, nil
+}
+
+func (v *vstream) Run(ctx execution.ExecutionContext, produce execution.ProduceFn, metaSend execution.MetaSendFn) error {
+	pctx := execution.ProduceFromExecutionContext(ctx)
+	rec := func(i int64, retraction bool, sec int) error {
+		return produce(pctx, execution.NewRecord([]octosql.Value{octosql.NewInt(i)}, retraction, vstreamTime(sec)))
+	}
+	wm := func(sec int) error {
+		return metaSend(pctx, execution.MetadataMessage{Type: execution.MetadataMessageTypeWatermark, Watermark: vstreamTime(sec)})
+	}
+	steps := []func() error{
+		func() error { return wm(1) },
+		func() error { return rec(1, false, 2) },
+		func() error { return wm(2) },
+		func() error { return rec(2, false, 3) },
+		func() error { return rec(1, true, 3) },
+		func() error { return wm(3) },
+		func() error { return wm(4) },
+		func() error { return rec(3, false, 5) },
+		func() error { return wm(5) },
+	}
+	for _, s := range steps {
+		if err := s(); err != nil {
+			return err
+		}
+	}
+	return nil
+}
+
 func (d *database) GetTable(ctx context.Context, name string, options map[string]string) (physical.DatasourceImplementation, physical.Schema, error) {
+	if name == "vstream" {
+		return &vstream{}, physical.Schema{Fields: []physical.SchemaField{{Name: "i", Type: octosql.Int}}, TimeField: -1, NoRetractions: false}, nil
+	}
 	if strings.ContainsAny(name, "/\\") {
 		return nil, physical.Schema{}, fmt.Errorf("no such table: %s", name)
 	}
